@@ -466,6 +466,13 @@ def canonical_order(ctx, pt, site):
                 ctx.undecided("C06.1", fn, "dump via %s: dictionary '%s' is filled in insertion order; a re-keying exists (`%s` in %s) but which dictionary it copies could not be identified" % (
                     how, label, norm(blind[0].stmt)[:70], (blind[0].src_fn or blind[0].fn).qualname), norm(call) + " :: " + label)
                 continue
+            # a re-keying whose source is selected by a variable key (`for k in ("info", ...): meta[k] = dict(sorted(meta[k].items()))`):
+            # which of the dictionaries it orders depends on the values the variable takes, which is not evaluated here
+            varkey = [e for e in events if not e.inplace and any(isinstance(x, ast.Subscript) and isinstance(x.slice, ast.Name) for x in ast.walk(e.src))]
+            if varkey:
+                ctx.undecided("C06.1", fn, "dump via %s: dictionary '%s' is filled in insertion order; a re-keying under a variable key exists (`%s`) and the keys it is applied to were not evaluated" % (
+                    how, label, norm(varkey[0].stmt)[:80]), norm(call) + " :: " + label)
+                continue
             stacked = [(u[0], C.in_worklist_loop(ctx, u[0].fn, u[0].node)) for u in unordered if u[0].fn is not None]
             stacked = [(i_, w_) for i_, w_ in stacked if w_ is not None]
             if stacked:
